@@ -4,7 +4,7 @@ import gen_btree
 from vlib import REPO
 
 def run(ck):
-    ck.level = "translation_validation"
+    ck.level = "proof"
     ck.cov["rule"] = ("histories of insert/remove/find/lower_bound/walk/clear on four builds (page 64, 128, 256 with MAX_HEIGHT 24; page 4096 default); key orders random, "
                       "ascending, descending, zig-zag, drain-to-minimum-then-poke; after every call status, removed element, size and (white-box) the whole tree "
                       "(page ids, values, children), allocation events, comparator-call count and height are compared with the model; non-trivial = distinct history")
@@ -14,7 +14,7 @@ def run(ck):
     except Exception as e:
         ck.machinery_error("translator gen_btree failed: %r" % (e,)); return
     if not ck.build_driver(): return
-    if not ck.prove():
+    if not ck.prove(["ZixModel.Properties.C01", "ZixModel.Properties.C01Remove", "ZixModel.Properties.C01History"]):
         ck.report_proof_failure("theorems about the B-tree model no longer build")
     cfgs = bc.build(ck)
     if not cfgs: return
